@@ -253,7 +253,7 @@ class RunResult:
 
 
 def run_tool(scn: Scenario, base: Path, faults=None, on_event=None, trace=False, gate=None, upstream_files=None,
-             hashseed=None):
+             hashseed=None, prepare=None, on_request=None):
     """Runs APTMirror.run() in this process.  faults: {url: {path: {"first": [Resp...], "rest": Resp}}}.
     upstream_files: {url: files} overrides rendering (for history steps).  Returns RunResult."""
     import apt_mirror.apt_mirror as am
@@ -263,6 +263,7 @@ def run_tool(scn: Scenario, base: Path, faults=None, on_event=None, trace=False,
     cfgfile.write_text(scn.config_text(base))
     (base / "auth.conf").write_text("")
     ups = {}
+    shared = {"cur": 0, "max": 0}
     for r in scn.repos:
         files = (upstream_files or {}).get(r["url"])
         if files is None:
@@ -279,6 +280,9 @@ def run_tool(scn: Scenario, base: Path, faults=None, on_event=None, trace=False,
             if rest == "good" and good is None:
                 up.default.pop(p, None)
         up.gate = gate
+        up.shared = shared
+        if on_request is not None:
+            up.on_request = (lambda u: (lambda path: on_request(u, path)))(r["url"])
         ups[r["url"].rstrip("/")] = up
     SimDownloader = sim.make_sim_downloader_class()
     results = {}
@@ -307,7 +311,10 @@ def run_tool(scn: Scenario, base: Path, faults=None, on_event=None, trace=False,
         config.create_working_directories()
 
         async def go():
-            return await am.APTMirror(config).run()
+            apt = am.APTMirror(config)
+            if prepare is not None:
+                prepare(apt)
+            return await apt.run()
         try:
             if trace or on_event:
                 with tracer.tracing(base, on_event=on_event):
@@ -328,6 +335,7 @@ def run_tool(scn: Scenario, base: Path, faults=None, on_event=None, trace=False,
         am.AsyncIOFileFactory = orig_aio
         am.RepositoryMirror.mirror = orig_mirror
     res.results = results
+    res.max_inflight = shared["max"]
     res.ups = ups
     res.config = config
     return res
